@@ -1162,6 +1162,42 @@ def tab_cli_distinct_outputs(run, pc, R="TAB-cli"):
                 reg = T.reach_following_consts(f, same_edge)
             if report_error_in_region(f, reg) and err_return_in_region(f, reg):
                 ok = True
+    # ... but a request for the help or the version text is answered whatever the groups look like: the rejection lies behind a
+    # test of `show_help` / `show_version` (directly, or through a named boolean computed from them)
+    def gate_blocks(f):
+        out = []
+        for b in sorted(f.reachable()):
+            tt = f.blocks[b]["term"]
+            if tt["k"] != "switch" or op_local(tt["discr"]) is None:
+                continue
+            txts = [_deep(f, tt["discr"], 6)]
+            for d_ in f.full_defs(f.copy_root(op_local(tt["discr"]))):
+                if d_[0] == "stmt" and d_[3]["k"] == "assign":
+                    rv_ = d_[3]["rv"]
+                    for o_ in ([rv_.get("op")] if rv_.get("op") else []) + [rv_.get("l"), rv_.get("r"), rv_.get("x")]:
+                        if o_ is not None:
+                            txts.append(_deep(f, o_, 6))
+            if any(re.search(r"\.show_(help|version)\)*$", x) for x in txts):
+                out.append(b)
+        return out
+    gated = False
+    gates = gate_blocks(pc)
+    for f in cands:
+        for bi, t in f.calls():
+            c = t.get("callee") or ""
+            site = compares_names(f, t) or (re.search(r"Iterator>?::any(::<.*)?$|::contains(::<.*)?$", c) and len(t["args"]) == 2 and (names_file(f, t["args"][0]) or names_file(f, t["args"][1]) or
+                                            (prog.fn(closure_of_origin(f.origin_op(t["args"][1])) or "") is not None and any(compares_names(prog.fn(closure_of_origin(f.origin_op(t["args"][1]))), t2, one_side=True) for _, t2 in prog.fn(closure_of_origin(f.origin_op(t["args"][1]))).calls()))))
+            if not site:
+                continue
+            if f is pc:
+                gated = gated or any(pc.edge_dominates(g, e, bi) for g in gates for e in pc.succs(g) if g != bi)
+            else:
+                # the comparison sits in a helper: the call of that helper in parse_command is gated
+                for b2, t2 in pc.calls():
+                    if (t2.get("resolved") or "") == f.id and any(pc.edge_dominates(g, e, b2) for g in gates for e in pc.succs(g) if g != b2):
+                        gated = True
+    run.check((not ok) or gated, R, R + "|groups|distinct-files-not-for-help", pc.loc(), "the duplicate-output rejection is not consulted when only the help or version text is asked for",
+              "parse_command rejects output groups that share a file name also when `-h` or `-v` is given: `customasm -v -f annotated -- -f symbols` prints `multiple output groups write to ...` instead of the version")
     run.check(ok, R, R + "|groups|distinct-files", pc.loc(), "two output groups naming the same file are reported and rejected",
               "parse_command never compares the output file names of different groups: `customasm prog.asm -f annotated -- -f symbols` derives `prog.txt` twice, writes both outputs to it and exits 0 with the first one lost")
 
